@@ -106,7 +106,9 @@ class PointsToCuntzMST(Transform[npt.NDArray[np.float32], Tree]):
         mask[0, :] = False
         mask[0, 0] = True
         for _ in range(n - 1):  # for tree: e = n-1
-            cost = ma.array(dis + self.bf * acc, mask=mask)
+            # cost[i, j]: edge i -> j plus the weighted path length of i, the
+            # (already connected) point that j would be attached to
+            cost = ma.array(dis + self.bf * acc[:, None], mask=mask)
             (i, j) = np.unravel_index(cost.argmin(), cost.shape)
 
             furcations[i] += 1
